@@ -86,7 +86,7 @@ theorem merge_ts (a b : Lww) : (merge a b).ts = Stamp.max a.ts b.ts := by
 
 end Lww
 
-theorem Nat.max_idem' (a : Nat) : Nat.max a a = a := Nat.max_self a
+theorem Nat.max_idem' (a : Nat) : Max.max a a = a := Nat.max_self a
 
 namespace Crdt
 
@@ -143,19 +143,19 @@ theorem merge_union_wf {a b : NMap NSet}
     ∀ p ∈ NMap.merge NSet.union a b, NSet.WF p.2 :=
   NMap.merge_forall (P := NSet.WF) (fun _ _ hx hy => NSet.wf_union hx hy) ha hb
 
-theorem natmax_comm (a b : Nat) : Nat.max a b = Nat.max b a := Nat.max_comm a b
-theorem natmax_assoc (a b c : Nat) : Nat.max a (Nat.max b c) = Nat.max (Nat.max a b) c :=
+theorem natmax_comm (a b : Nat) : Max.max a b = Max.max b a := Nat.max_comm a b
+theorem natmax_assoc (a b c : Nat) : Max.max a (Max.max b c) = Max.max (Max.max a b) c :=
   (Nat.max_assoc a b c).symm
 
 theorem cmerge_comm {a b : NMap Nat} (ha : NMap.WF a) (hb : NMap.WF b) :
-    NMap.merge Nat.max a b = NMap.merge Nat.max b a :=
+    NMap.merge Max.max a b = NMap.merge Max.max b a :=
   NMap.merge_comm ha hb (fun _ u v _ _ => Nat.max_comm u v)
 
-theorem cmerge_idem {a : NMap Nat} (ha : NMap.WF a) : NMap.merge Nat.max a a = a :=
+theorem cmerge_idem {a : NMap Nat} (ha : NMap.WF a) : NMap.merge Max.max a a = a :=
   NMap.merge_idem ha (fun _ u _ => Nat.max_self u)
 
 theorem cmerge_assoc {a b c : NMap Nat} (ha : NMap.WF a) (hb : NMap.WF b) (hc : NMap.WF c) :
-    NMap.merge Nat.max a (NMap.merge Nat.max b c) = NMap.merge Nat.max (NMap.merge Nat.max a b) c :=
+    NMap.merge Max.max a (NMap.merge Max.max b c) = NMap.merge Max.max (NMap.merge Max.max a b) c :=
   NMap.merge_assoc ha hb hc (fun _ u v w _ _ _ => (Nat.max_assoc u v w).symm)
 
 end Crdt
